@@ -439,7 +439,13 @@ impl HttpServer {
                     }
                 } else if e.event_set().contains(epoll::EventSet::OUT) {
                     // We have bytes to write on this connection.
-                    client_connection.write()?;
+                    if client_connection.connection.pending_write() {
+                        client_connection.write()?;
+                    } else if client_connection.state == ClientConnectionState::AwaitingOutgoing {
+                        // Writable but nothing is left to write (the output was already
+                        // flushed): go back to waiting for input instead of failing.
+                        client_connection.state = ClientConnectionState::AwaitingIncoming;
+                    }
                     // If the connection was outgoing before we tried to write the responses
                     // and we don't have any more responses to write, we change the `epoll`
                     // event set to notify us when we have bytes to read from the stream.
@@ -449,6 +455,11 @@ impl HttpServer {
                             fd,
                             epoll::EventSet::IN | epoll::EventSet::READ_HANG_UP,
                         )?;
+                    } else if client_connection.state == ClientConnectionState::Closed {
+                        // The write failed and the output was discarded. The connection is
+                        // only kept until the responses still in flight have been absorbed:
+                        // stop asking for writability, there is nothing to write anymore.
+                        Self::epoll_mod(&self.epoll, fd, epoll::EventSet::READ_HANG_UP)?;
                     }
                 }
             }
